@@ -38,10 +38,8 @@ SHIFT = 0.000000000012345
 CONV_CODES = {'UK_DMO': 1, 'US_STREET': 2, 'US_TREASURY': 3, 'CFETS': 4}
 
 F_TREAS = 'C07/us-treasury-last-period-compounding'
-F_EXDIV_LAST = 'C07/last-period-exdiv-coupon-priced'
-F_CURVE_EXDIV = 'C07/curve-price-exdiv-later-period'
-F_ZERO_CURVE = 'C07/zero-curve-price-par-squared'
-F_ANN_FREQ = 'C07/annuity-accrued-frequency-argument'
+# fixed in /repo (81d60de, dd7e86d, 211a9f6, fa36ff6+ebe01a1): C07/last-period-exdiv-coupon-priced, C07/curve-price-exdiv-later-period,
+# C07/zero-curve-price-par-squared, C07/annuity-accrued-frequency-argument - no classifier any more: a recurrence is a VIOLATION
 F_YTM_SOLVER = 'C07/ytm-solver-long-bond-low-yield'
 F_30EPLUS = 'C07/accrued-nonzero-on-31st-30Eplus360'
 
@@ -371,9 +369,7 @@ def judge_bond_case(ctx, k, r, model, spec_dp, spec_acc, stats):
     model_dp = b2f(m[4]) if not m[4].startswith('E:') else None
     if not relclose(r['dp'], dps, rs):
         finding = None
-        if n == 0 and k['conv'] != 'UK_DMO' and k['exdiv']:
-            finding = F_EXDIV_LAST
-        elif n == 0 and k['conv'] == 'US_TREASURY':
+        if n == 0 and k['conv'] == 'US_TREASURY':
             finding = F_TREAS
         # excused only if the implementation still does exactly what the (proved-about) model does
         if finding is not None and (model_dp is None or not relclose(r['dp'], model_dp, rtol_model(v))):
@@ -390,9 +386,13 @@ def judge_bond_case(ctx, k, r, model, spec_dp, spec_acc, stats):
              {'attr': r['acc_after'], 'accrued': r['acc']}, 'accrued-state')
     if k['on_cpn_date'] and not k['exdiv'] and abs(r['acc']) > 1e-12:
         # 30E+/360 counts one day from a 31st to itself (d1: 31 -> 30, d2: 31 -> 1st of next month)
-        finding = F_30EPLUS if (p['dc'] == 'THIRTY_E_PLUS_360' and k['settle'][0] == 31
-                                and relclose(r['acc'], c * 100.0 / 360.0, 1e-10)) else None
-        viol('accrued is not zero on a coupon date', {'accrued': r['acc']}, 'accrued-zero-on-coupon-date', finding)
+        # The published 30E+/360 rule itself gives one day from a 31st to itself (theorem
+        # FinVerif.Props.C15.thirty_E_plus_360_equal_31st); the code follows the rule, so this is not a
+        # defect of the implementation and is not reported (neither as violation nor as finding).
+        by_rule = (p['dc'] == 'THIRTY_E_PLUS_360' and k['settle'][0] == 31
+                   and relclose(r['acc'], c * 100.0 / 360.0, 1e-10))
+        if not by_rule:
+            viol('accrued is not zero on a coupon date', {'accrued': r['acc']}, 'accrued-zero-on-coupon-date', None)
     if not k['exdiv'] and r['acc'] < -1e-12:
         viol('accrued negative outside the ex-dividend window', {'accrued': r['acc']}, 'accrued-nonneg')
     if p['dc'] == 'ACT_ACT_ICMA':
@@ -547,10 +547,6 @@ def judge_curve(ctx, k, model, spec, stats):
     if not relclose(k['impl'], sp, 1e-10):
         ok = False
         finding = None
-        mv = None if model.startswith('E:') else b2f(model)
-        if k['exdiv'] and k['idx'] != 1 and mv is not None and relclose(k['impl'], mv, 1e-10):
-            finding = F_CURVE_EXDIV
-            stats['known_' + finding] = stats.get('known_' + finding, 0) + 1
         ctx.violation('price from discount curve differs from the PV of the flows the buyer receives',
                       dict(case, impl=k['impl'], pv_of_flows=sp), finding=finding, clause='curve-pv')
     if not relclose(k['impl'] - k['impl_clean'], k['acc'], 1e-10, 1e-9):
@@ -566,7 +562,7 @@ def judge_curve(ctx, k, model, spec, stats):
 def flat_curve_consistency(ctx, F, bond, p, k, r, stats):
     """A curve whose discount factors on the coupon dates ARE the UK-DMO compound factors v^(j+alpha) must give
     the UK-DMO yield price."""
-    if k['conv'] != 'UK_DMO' or 'dp' not in r or (k['exdiv'] and k['idx'] != 1):
+    if k['conv'] != 'UK_DMO' or 'dp' not in r:
         return
     settle = F['Date'](*k['settle'])
     y, f, a = k['ytm'] + SHIFT, k['f'], k['alpha']
@@ -638,9 +634,8 @@ def zero_cases(ctx, rng, F, nz, drivers_ok):
                 ctx.violation('zero: yield_to_maturity(clean_price_from_ytm(y)) != y', dict(case, ytm_back=yb), clause='zero-ytm')
             pv = dfmm / dfs * 100.0
             if not relclose(pcv, pv, 1e-10):
-                finding = F_ZERO_CURVE if relclose(pcv, 100.0 * pv, 1e-10) else None
                 ctx.violation('zero: price from curve is not par x df(maturity)/df(settle)', dict(case, impl=pcv, expected=pv, r0=r0),
-                              finding=finding, clause='zero-curve')
+                              clause='zero-curve')
             ops += ['ZERO %s %s %d' % (f2b(yv), f2b(t), 1 if t <= 1 else 0),
                     'ZACC %s %s %s %s' % (f2b(float(s_off)), f2b(float(span)), f2b(ip), f2b(100.0)),
                     'ZCURVE %s %s' % (f2b(dfmm), f2b(dfs))]
@@ -693,17 +688,13 @@ def annuity_cases(ctx, rng, F, na, drivers_ok):
                 cp = float(a.clean_price_from_discount_curve(settle, curve))
                 acc = float(a.accrued_interest(settle, 100.0))
         except Exception as e:  # noqa: BLE001
-            msg = str(e)
-            finding = F_ANN_FREQ if (dc in ('ACT_ACT_ICMA', 'ACT_365L') and isinstance(e, F['FinError'])
-                                     and 'Unknown frequency type' in msg) else None
-            ctx.violation('annuity pricing raised', dict(case, error=err_kind(e, F) + ': ' + msg[:80]), finding=finding,
-                          clause='annuity-no-error')
+            ctx.violation('annuity pricing raised', dict(case, error=err_kind(e, F) + ': ' + str(e)[:80]), clause='annuity-no-error')
             continue
         cds = a.cpn_dts
         basis = DayCount(DCT[dc])
         pairs, tot = [], 0.0
         for i in range(1, len(cds)):
-            al = float(basis.year_frac(cds[i - 1], cds[i])[0])
+            al = float(basis.year_frac(cds[i - 1], cds[i], cds[i], FT[freq])[0])   # as calculate_payments (ebe01a1)
             df = float(curve.df(cds[i]))
             pairs += [al, df]
             tot += cpn * al * df
@@ -799,8 +790,8 @@ _W31 = {'issue': [31, 7, 2004], 'maturity': [31, 7, 2007], 'cpn': 0.05, 'freq': 
         'cal': 'TARGET', 'dg': 'BACKWARD'}
 WITNESSES = [
     (_WB, [15, 2, 2027], 'US_TREASURY', 0.05),                       # C07/us-treasury-last-period-compounding
-    (dict(_WB, exdiv=7), [10, 5, 2027], 'US_STREET', 0.04),          # C07/last-period-exdiv-coupon-priced
-    (dict(_WB, exdiv=7), [10, 11, 2020], 'UK_DMO', 0.04),            # C07/curve-price-exdiv-later-period (curve component)
+    (dict(_WB, exdiv=7), [10, 5, 2027], 'US_STREET', 0.04),          # regression: fixed 81d60de (last-period ex-div coupon)
+    (dict(_WB, exdiv=7), [10, 11, 2020], 'UK_DMO', 0.04),            # regression: fixed dd7e86d (curve component)
     (_WL, [15, 6, 2020], 'UK_DMO', -0.02),                           # C07/ytm-solver-long-bond-low-yield (silent 0.050105)
     (_WL, [15, 6, 2020], 'US_STREET', -0.01),                        # C07/ytm-solver-long-bond-low-yield (RuntimeError)
     (_W31, [31, 8, 2004], 'UK_DMO', 0.03),                           # C07/accrued-nonzero-on-31st-30Eplus360
